@@ -29,7 +29,10 @@ RULE = ("matrices: exhaustive 0/1 matrices (quick <= 3x4 and 4x3, thorough <= 3x
         "7) from planted CI / CEI / VI / VEI / partition / 2-partition / forbidden-cycle / uniform generators with "
         "flips, repeated ballots, empty and full approval sets, unapproved alternatives, arbitrary labels in arbitrary "
         "insertion order, 1 or 2 categories; large planted instances 8 <= m, n <= 40 (witness check + planted "
-        "certificate; partition references run at every size); instance_to_ci_matrix compared through "
+        "certificate; partition references run at every size); reorder_sets called directly on the duplicate-free "
+        "families of column sets of such matrices (all families from the exhaustive shapes, ~10 000 structured families (thorough 120 000) "
+        "with 3-14 sets, 3 000 large ones up to 40 sets; list and dict-keys input): contract = sets_check / sets_decide; "
+        "instance_to_ci_matrix compared through "
         "c1p_decide(matrix) == ci_decide(instance). non-trivial = >= 3 columns (alternatives) and a row (ballot) with "
         ">= 2 ones and >= 1 zero")
 EXHAUSTIVE = {
@@ -48,17 +51,24 @@ TRUSTED = [
     "floats of is_dichotomous_euclidean are converted exactly with fractions.Fraction (positions are halves of small "
     "integers, exact in IEEE double)",
     "numpy array construction / transpose / vstack / argwhere",
+    "reorder_sets is additionally called directly on duplicate-free families of ascending index tuples (contract "
+    "test: the result is accepted by sets_check, ValueError iff sets_decide says no arrangement exists); if the "
+    "helper is not importable these cases are skipped, not failed",
 ]
 ASSUMPTIONS = [
     "instance.num_alternatives == len(instance.alternatives_name); approved alternatives are keys of alternatives_name",
     "isC1P is only called with >= 1 row and >= 1 column (it raises IndexError on a matrix without rows or columns)",
-    "2PART on a profile WITHOUT ballots: the reference (at most two distinct approval sets: zero qualifies) says "
-    "True, is_2_part says False (theorem two_part_no_ballots_refuted; reported as a finding). These 4 cases are "
-    "generated only once known_findings.json holds an OPEN C05 entry with match.predicate 'part2_no_ballots'",
+    "2PART is read as 'at most two distinct approval sets': the profile without ballots is a 2-partition (witness "
+    "[]); since /repo e589929 is_2_part agrees (corpus/C05/is_2_part_no_ballots.json)",
     "ballots of the two partition domains are also exercised with empty approval sets; the theorems do not need the "
     "non-emptiness hypothesis",
 ]
 TIMEOUT_S = 20.0
+COVER_FILES = ["properties/subdomains/consecutive_ones.py",
+               "properties/subdomains/dichotomous/interval.py",
+               "properties/subdomains/dichotomous/singlecrossing.py",
+               "properties/subdomains/dichotomous/euclidean.py",
+               "properties/subdomains/dichotomous/partition.py"]
 CHUNK = 60
 REF_MAX = 8          # reference deciders enumerate permutations of at most this many columns / alternatives / ballots
 
@@ -71,6 +81,23 @@ VOTER = ("vi", "vei", "wsc")        # permuted dimension = ballots
 # generators
 def _mcase(rows, nc, **tags):
     return case("c05.matrix", [nc, [list(r) for r in rows]], **tags)
+
+
+def _family(rows, nc, order=None):
+    """the distinct column sets (ascending row-index tuples), first occurrences along order (default 0..nc-1)"""
+    fam = []
+    for j in (order if order is not None else range(nc)):
+        k = [i for i, r in enumerate(rows) if r[j]]
+        if k not in fam:
+            fam.append(k)
+    return fam
+
+
+def _rcase(rows, nc, hidden=None, **tags):
+    """contract test of reorder_sets on the duplicate-free family of column sets of a matrix"""
+    if hidden is not None:
+        tags["planted"] = _family(rows, nc, hidden)
+    return case("c05.reorder", [_family(rows, nc)], **tags)
 
 
 def _icase(dom, alts, ballots, **tags):
@@ -339,20 +366,16 @@ def _rand_instance(rng, mmax, nmax, big=False):
     return alts, ballots, planted
 
 
-def _open_predicates():
-    """predicates of OPEN known findings (so that a reported defect is exercised once it is registered)"""
-    try:
-        here = os.path.dirname(os.path.dirname(os.path.dirname(os.path.abspath(__file__))))
-        ks = json.load(open(os.path.join(here, "known_findings.json")))["findings"]
-        return {k["match"]["predicate"] for k in ks
-                if k.get("property") == ID and k.get("status") == "open" and "predicate" in k.get("match", {})}
-    except Exception:
-        return set()
+def _rot(k):
+    """the eight recognisers, starting at a varying one (keeps any every-n-th sample of the campaign representative)"""
+    k %= len(DOMAINS)
+    return DOMAINS[k:] + DOMAINS[:k]
 
 
 def generate(tier, seed):
     rng = random.Random(1000003 * seed + 5)
     quick = tier == "quick"
+    rot_rng = random.Random(99)
     out = []
     # ---- (1) matrices -------------------------------------------------------------------------------------
     shapes = [(nr, nc) for nr in range(1, 4) for nc in range(1, 5)] + [(4, 3), (4, 2), (4, 1)]
@@ -414,7 +437,7 @@ def generate(tier, seed):
         else:
             rows, hidden = _deep_matrix(rng, nr, nc)
             out.append(_mcase(rows, nc, gen="deep5-7", **({"planted": hidden} if hidden is not None else {})))
-    nwide = 24000 if quick else 200000
+    nwide = 18000 if quick else 200000
     for i in range(nwide):                                       # 8-12 columns: witness check + planted certificate
         nr, nc = rng.randint(3, 8), rng.randint(8, 12)
         if i % 4 == 3:
@@ -422,7 +445,7 @@ def generate(tier, seed):
         else:
             rows, hidden = _deep_matrix(rng, nr, nc, flips=rng.choice([0, 0, 0, 1, 2]))
             out.append(_mcase(rows, nc, gen="deep8-12", big=1, **({"planted": hidden} if hidden is not None else {})))
-    ntall = 20000 if quick else 150000
+    ntall = 15000 if quick else 150000
     for i in range(ntall):          # many rows, near misses: a false True always carries an invalid column order
         nr, nc = rng.randint(7, 10), rng.randint(5, 9)
         if i % 3 == 2:
@@ -437,6 +460,40 @@ def generate(tier, seed):
         rows, _ = _planted_matrix(rng, nr, nc)
         ridx, cols = _embed_core(rng, rows, nc)
         out.append(_mcase(rows, nc, gen="embedded-core", big=1, core=[ridx, cols]))
+    # ---- (1b) reorder_sets called directly on duplicate-free families (its contract: Properties/C05.v
+    #      reorder_contract / solve_model_correct / isC1P_model_correct) ---------------------------------------
+    seen_fam = set()
+    for nr, nc in [(3, 3), (3, 4), (4, 3), (3, 5)] + ([] if quick else [(4, 4), (3, 6)]):
+        for rows in _all_matrices(nr, nc):
+            c_ = _rcase(rows, nc, exh=1, form=len(seen_fam) % 2)
+            key = repr(c_["payload"])
+            if key not in seen_fam:
+                seen_fam.add(key)
+                out.append(c_)
+    nfam = 10000 if quick else 120000
+    for i in range(nfam):
+        kind = i % 6
+        if kind in (0, 1):
+            nr, nc = rng.randint(3, 7), rng.randint(5, 8)
+            rows, hidden = _deep_matrix(rng, nr, nc)
+        elif kind in (2, 3):
+            nr, nc = rng.randint(3, 8), rng.randint(8, 14)
+            rows, hidden = _deep_matrix(rng, nr, nc, flips=rng.choice([0, 0, 0, 1, 2]))
+        elif kind == 4:
+            nr, nc = rng.randint(7, 10), rng.randint(5, 9)
+            rows, hidden = _deep_matrix(rng, nr, nc, flips=rng.choice([1, 2, 3]))
+        else:
+            nr, nc = rng.randint(3, 8), rng.randint(4, 9)
+            rows, hidden = _uniform_matrix(rng, nr, nc), None
+        out.append(_rcase(rows, nc, hidden, form=i % 2, gen="fam"))
+    nfb = 3000 if quick else 30000
+    for i in range(nfb):                       # large families: planted certificate + check of the returned order
+        nr, nc = rng.randint(6, 30), rng.randint(10, 40)
+        if i % 2:
+            rows, hidden = _planted_matrix(rng, nr, nc)
+        else:
+            rows, hidden = _deep_matrix(rng, nr, nc, flips=rng.choice([0, 0, 0, 1]))
+        out.append(_rcase(rows, nc, hidden, form=i % 2, gen="fam-big"))
     # ---- (2) instances: exhaustive small ------------------------------------------------------------------
     label_sets = {0: [], 1: [7], 2: [4, 2], 3: [5, 3, 9], 4: [6, 1, 8, 3]}
     for m in range(0, 4):
@@ -444,9 +501,7 @@ def generate(tier, seed):
         subs = list(_subsets(alts))
         for n in range(0, 4):
             for prof in itertools.product(subs, repeat=n):
-                for dom in DOMAINS:
-                    if dom == "part2" and n == 0 and "part2_no_ballots" not in _OPEN:
-                        continue
+                for dom in _rot(rot_rng.randrange(8)):
                     out.append(_icase(dom, alts, prof, exh=1, ncat=1 + (len(out) % 2)))
                 out.append(_icase("cimat", alts, prof, exh=1, ncat=1 + (len(out) % 2)))
     if True:
@@ -456,14 +511,14 @@ def generate(tier, seed):
             for prof in (itertools.combinations_with_replacement(subs, n) if quick else itertools.product(subs, repeat=n)):
                 prof = list(prof)
                 rng.shuffle(prof)
-                for dom in DOMAINS:
+                for dom in _rot(rot_rng.randrange(8)):
                     out.append(_icase(dom, alts, prof, exh=1, ncat=1 + (len(out) % 2)))
     # ---- random small (reference runs) --------------------------------------------------------------------
     nri = 1500 if quick else 12000
     mmax = 6 if quick else 7
     for i in range(nri):
         alts, ballots, planted = _rand_instance(rng, mmax, mmax)
-        for dom in DOMAINS:
+        for dom in _rot(rot_rng.randrange(8)):
             tags = {"ncat": 1 + (i % 2)}
             if dom in planted:
                 tags["planted"] = planted[dom]
@@ -504,9 +559,6 @@ def generate(tier, seed):
                 tags["planted"] = planted[dom]
             out.append(_icase(dom, alts, ballots, **tags))
     return out
-
-
-_OPEN = _open_predicates()
 
 
 # ---------------------------------------------------------------------------------------------------------
@@ -604,8 +656,27 @@ def _run_cimat(alts, ballots, ncat):
     return [shape, [[int(x) for x in row] for row in mat]]
 
 
+def _run_reorder(fam, form):
+    try:
+        from preflibtools.properties.subdomains.consecutive_ones import reorder_sets
+    except ImportError:
+        return [2]                 # the helper is internal: its absence is not a violation of the property
+    sets = [tuple(s_) for s_ in fam]
+    arg = list(sets) if form == 0 else dict.fromkeys(sets).keys()      # isC1P passes a list, the solver dict keys
+    try:
+        res = reorder_sets(arg)
+    except ValueError:
+        return [0]
+    try:
+        return [1, [[int(x) for x in s_] for s_ in res]]
+    except Exception:
+        return [1, [[-1]]]
+
+
 def impl(c):
     op, pl = c["op"], c["payload"]
+    if op == "c05.reorder":
+        return guarded(_run_reorder, pl[0], c["tags"].get("form", 0))
     if op == "c05.matrix":
         return guarded(_run_matrix, pl[0], pl[1])
     if op == "c05.cimat":
@@ -620,6 +691,17 @@ def _plan(c, r):
     op, pl, tags = c["op"], c["payload"], c["tags"]
     okres = isinstance(r, list) and len(r) == 2 and r[0] == 0
     plan = []
+    if op == "c05.reorder":
+        fam = pl[0]
+        if okres and r[1][0] == 2:
+            return plan
+        if len(fam) <= REF_MAX - 1:
+            plan.append(("ref", "c05.sets_decide", [fam]))
+        if "planted" in tags:
+            plan.append(("planted", "c05.sets_check", [fam, tags["planted"]]))
+        if okres and r[1][0] == 1:
+            plan.append(("witness", "c05.sets_check", [fam, r[1][1]]))
+        return plan
     if op == "c05.matrix":
         nc, rows = pl
         if nc <= REF_MAX and not tags.get("big"):
@@ -677,7 +759,9 @@ def judge(c, r, mres):
                     "candidate interval" % (bool(ans["mat"]), "" if ans["ref"] else "not "))
         return None
     v = val[0]
-    what = "solve_consecutive_ones" if c["op"] == "c05.matrix" else c["op"][4:]
+    if c["op"] == "c05.reorder" and v == 2:
+        return None
+    what = {"c05.matrix": "solve_consecutive_ones", "c05.reorder": "reorder_sets"}.get(c["op"], c["op"][4:])
     if "ref" in ans and v != ans["ref"]:
         return "%s verdict %s, verified reference decider says %s" % (what, bool(v), bool(ans["ref"]))
     if "planted" in ans:
@@ -712,6 +796,10 @@ def judge(c, r, mres):
 
 
 def _rows_of(c):
+    if c["op"] == "c05.reorder":
+        fam = c["payload"][0]
+        nr = 1 + max([i for k in fam for i in k], default=-1)
+        return len(fam), [[int(i in k) for k in fam] for i in range(nr)]
     if c["op"] == "c05.matrix":
         return c["payload"][0], c["payload"][1]
     alts, ballots = c["payload"]
@@ -724,6 +812,8 @@ def nontrivial(c, r, m):
 
 
 def _distinct_cols(c):
+    if c["op"] == "c05.reorder":
+        return len(c["payload"][0])
     if c["op"] == "c05.matrix":
         nc, rows = c["payload"]
         return len({tuple(r[j] for r in rows) for j in range(nc)})
@@ -738,6 +828,10 @@ def stats(c, r, m):
     tags = c["tags"]
     ref = "ref" if any(lb == "ref" for lb, _, _ in _plan(c, r)) else (
         "planted" if "planted" in tags else ("refuted-core" if "core" in tags else "witness-only"))
+    if c["op"] == "c05.reorder":
+        nf = len(c["payload"][0])
+        return ["reorder_sets verdict=%s" % v, "reorder_sets %s" % ref,
+                "reorder_sets family size %s" % (nf if nf < 5 else ("5-7" if nf <= 7 else ">=8"))]
     if c["op"] == "c05.matrix":
         nc, rows = c["payload"]
         size = "big" if tags.get("big") else "%dx%d" % (len(rows), nc) if tags.get("exh") else "rand<=6x7"
@@ -753,6 +847,9 @@ def stats(c, r, m):
 
 
 def describe(c):
+    if c["op"] == "c05.reorder":
+        return {"call": "reorder_sets(%s of tuples)" % ("list" if c["tags"].get("form", 0) == 0 else "dict keys"),
+                "sets": c["payload"][0]}
     if c["op"] == "c05.matrix":
         return {"call": "solve_consecutive_ones(np.array(rows)) and isC1P(rows)", "num_cols": c["payload"][0],
                 "rows": c["payload"][1]}
@@ -763,6 +860,20 @@ def describe(c):
 
 def shrink(c):
     tags = {k: v for k, v in c["tags"].items() if k not in ("planted", "exh", "core")}
+    if c["op"] == "c05.reorder":
+        fam = c["payload"][0]
+        for i in range(len(fam)):
+            if len(fam) > 1:
+                yield dict(c, payload=[fam[:i] + fam[i + 1:]], tags=tags)
+        elems = sorted({x for k in fam for x in k})
+        for x in elems:
+            new = []
+            for k in fam:
+                k2 = [y for y in k if y != x]
+                if k2 not in new:
+                    new.append(k2)
+            yield dict(c, payload=[new], tags=tags)
+        return
     if c["op"] == "c05.matrix":
         nc, rows = c["payload"]
         for i in range(len(rows)):
@@ -783,13 +894,9 @@ def shrink(c):
             yield dict(c, payload=[alts, ballots[:i] + [[x for x in b if x != a]] + ballots[i + 1:]], tags=tags)
 
 
-def _part2_no_ballots(c, r, m, failure):
-    return c["op"] == "c05.part2" and len(c["payload"][1]) == 0
-
-
-PREDICATES = {"part2_no_ballots": _part2_no_ballots}
 THEOREMS_FOR_OP = {
     "c05.matrix": "c1p_decide_correct, c1p_check_correct", "c05.cimat": "ci_reduction",
+    "c05.reorder": "sets_decide_correct, sets_check_correct (reorder_contract -> solve_model_correct, isC1P_model_correct)",
     "c05.ci": "ci_decide_correct, ci_check_correct", "c05.cei": "cei_decide_correct, cei_check_correct",
     "c05.vi": "vi_decide_correct, vi_check_correct", "c05.vei": "vei_decide_correct, vei_check_correct",
     "c05.wsc": "wsc_decide_correct, wsc_check_correct", "c05.de": "de_decide_correct, de_check_correct, de_iff_ci",
